@@ -314,6 +314,10 @@ func checkWindow(t *testing.T, c WindowCase) (v harness.Verdict) {
 	}
 
 	// (1) front end, direct
+	if c.Now == (Inst{S: minTS}) {
+		// the zero time.Time means "no clock given, use the system's" to NewCertValidationOpts
+		c.Now.N = 1
+	}
 	pol := Policy{Expiry: c.Expiry, Now: c.Now, Margin: 1}
 	// the Instance validates against the real clock: the oracle only relies on the expiry verdict
 	// for certificates expiring more than two days away from it
